@@ -47,7 +47,24 @@ def size_ladder():
     units = [("C", "[C@H](C)C", ""), ("O", "[SiH2]O", ""), ("", "N[C@@H](C)C(=O)", "O"), ("", "[NH3+]CC(=O)[O-].", "O"),
              ("", "c1cc[nH]c1.", "C"), ("", "C", ""), ("O", "CCO", ""), ("[2H]", "C([2H])", "[2H]"), ("", "[Na+].[Cl-].", "O")]
     ns = [1, 2, 3, 5, 8, 13, 21, 34, 55, 63, 64, 65, 89, 127, 128, 129, 144, 200, 255, 256, 257, 300, 400]
-    return [a + u * n + z for a, u, z in units for n in ns]
+    big = [999, 1000, 1001, 1023, 1024, 1025, 2048, 4097]
+    return [a + u * n + z for a, u, z in units for n in ns] + [a + u * n + z for a, u, z in (units[1], units[5], units[6], units[8]) for n in big]
+
+
+def carbon_ladder():
+    """sides with n carbon atoms as one chain / as n/2 molecules / as n methanes, n around powers of two and of ten"""
+    ns = [1, 2, 9, 10, 11, 63, 64, 65, 99, 100, 101, 127, 128, 129, 255, 256, 257, 511, 512, 513, 999, 1000, 1001, 1002,
+          1023, 1024, 1025, 1500, 2047, 2048, 2049, 4095, 4096, 4097, 9999, 10000, 10001]
+    forms = [lambda n: "C" * n, lambda n: ".".join(["CC"] * (n // 2) + (["C"] if n % 2 else [])), lambda n: ".".join(["C"] * n),
+             lambda n: "O" + "C" * n + "O"]
+    pairs = []
+    for n in ns:
+        for f in forms:
+            for g in forms[:2]:
+                for m in (n, n + 1, n - 1):
+                    if m >= 1:
+                        pairs.append((f(n), g(m)))
+    return pairs
 
 
 def decomp_case(smiles):
@@ -210,6 +227,47 @@ def comparator_chunk(idx_range):
     return n, bad
 
 
+BATCH_DICTS = [
+    {}, {"C": 1, "H": 4}, {"C": 1, "H": 4, "Na": 1}, {"C": 1, "H": 4, "Q": 1}, {"C": 1, "H": 4, "Q": -1},
+    {"C": 2, "H": 6}, {"C": 2, "H": 6, "O": 1}, {"H": 2, "O": 1}, {"Na": 1, "Q": 1}, {"Cl": 1, "Q": -1},
+    {"Na": 1, "Cl": 1}, {"Pd": 1},
+]
+
+
+def comparator_batch_chunk(job):
+    """RSMIComparator.run_parallel on whole batches (the way the pipeline calls it): every one- and
+    two-row batch over all ordered pairs of BATCH_DICTS (elements / charge that occur on one side only,
+    in one row only), each on a fresh comparator and all of them in sequence on ONE comparator that was
+    constructed with the first batch; per row the answer must be the static compare_dicts / diff_dicts answer
+    (which the pair enumeration judges against the oracle)."""
+    from synrbl.SynProcessor import RSMIComparator
+
+    lo, hi = job
+    rows = [(r, p) for r in BATCH_DICTS for p in BATCH_DICTS]
+    batches = [[x] for x in rows] + [[x, y] for x in rows for y in rows]
+    bad, n = [], 0
+    shared = None
+    for bi in range(lo, min(hi, len(batches))):
+        b = batches[bi]
+        rs, ps = [dict(r) for r, _ in b], [dict(p) for _, p in b]
+        want = ([RSMIComparator.compare_dicts(dict(r), dict(p)) for r, p in b],
+                [RSMIComparator.diff_dicts(dict(r), dict(p)) for r, p in b])
+        if shared is None:
+            shared = RSMIComparator(reactants=[dict(x) for x in rs], products=[dict(x) for x in ps], n_jobs=1, verbose=0)
+        for mode, comp in (("fresh", RSMIComparator(reactants=rs, products=ps, n_jobs=1, verbose=0)), ("reused", shared)):
+            n += 1
+            try:
+                got = comp.run_parallel(reactants=[dict(x) for x in rs], products=[dict(x) for x in ps])
+                got = (list(got[0]), [dict(d) for d in got[1]])
+            except Exception as e:
+                got = "raises {}: {}".format(type(e).__name__, str(e)[:80])
+            if got != want:
+                bad.append({"batch": [[r, p] for r, p in b], "mode": mode, "got": got, "want": want, "first": batches[lo]})
+                if len(bad) >= 20:
+                    return n, bad
+    return n, bad
+
+
 def _key_decomp(case):
     want, got = case["want"], case["got"]
     if "Unknown" in got:
@@ -266,7 +324,8 @@ def run(tier, seed):
     pairs = list(itertools.product(sides, repeat=2))
     if tier != "thorough":
         pairs = list(itertools.product(MIX_ALPHABET, repeat=2))
-    r3 = pmap("checks.c07:carbon_case", pairs, chunk=500, seed=seed)
+    pairs += carbon_ladder()
+    r3 = pmap("checks.c07:carbon_case", pairs, chunk=100, seed=seed)
     for r in r3:
         if isinstance(r, dict):
             res.add(Violation("carbon", r["rsmi"], r, None, ["carbon-label"],
@@ -300,16 +359,29 @@ def run(tier, seed):
                               {"verdict": b["verdict"], "diff": b["diff"]}, b["why"],
                               ["comparator", b["why"]], "compare {} vs {}: {}".format(
                                   b["r"], b["p"], b["why"])))
+    nb = len(BATCH_DICTS) ** 2
+    nb = nb + nb * nb
+    branges = [(i, i + 1500) for i in range(0, nb, 1500)]
+    r5 = pmap("checks.c07:comparator_batch_chunk", branges, chunk=1, seed=seed)
+    n_batches = sum(n for n, _ in r5)
+    for (lo, hi), (_, bad) in zip(branges, r5):
+        for b in bad[:3]:
+            res.add(Violation("comparator-batch", {"lo": lo, "hi": hi, "batch": b["batch"], "mode": b["mode"]}, b["got"], b["want"],
+                              ["comparator", "batch", b["mode"]],
+                              "run_parallel on the batch {} ({} comparator) gives {} but row by row {}".format(
+                                  b["batch"], b["mode"], b["got"], b["want"])))
     res.coverage = {
-        "evaluations": len(r1) + len(r2) + 4 * len(r2b) + len(r3) + len(r3b) + n_pairs,
+        "comparator_batches": n_batches,
+        "evaluations": len(r1) + len(r2) + 4 * len(r2b) + len(r3) + len(r3b) + n_pairs + n_batches,
         "distinct_nontrivial": n_valid + len(mixes) + len(pairs) + len(bpairs) + n_pairs,
         "carbon_batches": len(bpairs),
         "rule": "distinct SMILES that RDKit parses (corpus molecules, every element Z=1..118 "
                 "in 13 forms, generated universes, a size ladder of 9 repeat units x 23 lengths up to 400) compared with the independent composition; "
                 "all ordered tuples of a {}-molecule alphabet up to length {} for additivity; "
-                "all ordered pairs of sides for the carbon label, and all ordered pairs of reactions over a side "
+                "all ordered pairs of sides for the carbon label (plus a ladder of sides with n, n+-1 carbon atoms, n up to 10001, as one chain / many molecules), and all ordered pairs of reactions over a side "
                 "alphabet with repeated molecules checked by one checker instance; all {}x{} pairs of "
-                "composition dicts over C,H,O in 0..2 and Q in -2..2 for the comparator. "
+                "composition dicts over C,H,O in 0..2 and Q in -2..2 for the comparator; every one- and two-row batch over all ordered pairs of 12 dicts "
+                "(elements / charges on one side, in one row only) through run_parallel on fresh comparators and in sequence on one comparator. "
                 "Non-trivial = parses (every case exercises the accounting).".format(
                     len(MIX_ALPHABET), k, nd, nd),
         "samples": [mols[0], mols[len(mols) // 2], mols[-1], ".".join(mixes[-1]),
@@ -348,6 +420,12 @@ def replay(v):
         r = carbon_batch_case([tuple(x.split(">>")) for x in v.case])
         if isinstance(r, list):
             out.append(Violation(v.sub, v.case, r[0], None, v.key, "carbon label in batch"))
+    elif v.sub == "comparator-batch":
+        _, bad = comparator_batch_chunk((v.case["lo"], v.case["hi"]))
+        for b in bad:
+            if b["batch"] == v.case["batch"] and b["mode"] == v.case["mode"]:
+                out.append(Violation(v.sub, v.case, b["got"], b["want"], v.key, "run_parallel on a batch"))
+                break
     elif v.sub == "comparator":
         from synrbl.SynProcessor import RSMIComparator
 
